@@ -347,3 +347,48 @@ def implied_classes(donor_res, acceptor_res, oxygens):
     if {7, 9} <= S:
         allowed.add(8)
     return allowed, ncontacts
+
+
+# ---------------------------------------------------------------------------------------------
+# global decision margin of a structure (C05): smallest distance of any decision quantity from its threshold
+
+def global_margin(residues):
+    m = Margin()
+    # hydrogen-bond candidates, cis/trans, base-phosphate / base-ribose classes
+    for i, j in near_pairs(residues):
+        a, b = residues[i], residues[j]
+        if a.key == b.key:
+            continue
+        touched = False
+        for r1, r2 in ((a, b), (b, a)):
+            dn = DONORS.get(r1.letter, []) + (["O2'"] if r1.letter in HAS_O2P else [])
+            ac = ACCEPTORS.get(r2.letter, []) + PHOSPHATE_O + RIBOSE_O
+            for x in dn:
+                if x not in r1.atoms:
+                    continue
+                for y in ac:
+                    if y not in r2.atoms:
+                        continue
+                    d = float(np.linalg.norm(r1.atoms[x] - r2.atoms[y]))
+                    if d > HB_MAX + 0.5:
+                        continue
+                    m.le(d, HB_MAX)
+                    touched = True
+                    if y in PHOSPHATE_O or y in RIBOSE_O:
+                        if x in ("N6", "N2", "N4"):
+                            pre = {"A": ("N1", "C6"), "G": ("N3", "C2"), "C": ("N3", "C4")}.get(r1.letter)
+                            if pre and pre[0] in r1.atoms and pre[1] in r1.atoms:
+                                t = math.degrees(reftorsion.torsion(r1.atoms[pre[0]], r1.atoms[pre[1]], r1.atoms[x], r2.atoms[y]))
+                                m.lt(abs(t), 90.0)
+                    if r1.normal is not None and r2.normal is not None and d > 0:
+                        v = r1.atoms[x] - r2.atoms[y]
+                        for n in (r1.normal, r2.normal):
+                            ang = angle_deg(n, v)
+                            m.gt(ang, HB_ANGLE[0])
+                            m.lt(ang, HB_ANGLE[1])
+        if touched:
+            cis_trans(a, b, m)
+    for e in stacking_reference(residues).values():
+        if e.get("defined"):
+            m.value = min(m.value, e["margin"], e.get("dot_margin", float("inf")))
+    return m.value
